@@ -201,7 +201,8 @@ structure DS where
 
 def stepLine (d : DS) (line : String) : DS × String :=
   match line.trimAscii.toString.splitOn " " with
-  | ["cfg", i, a, f, o, r] => ({ d with c := ⟨i == "1", a == "1", f == "1", o == "1", r == "1"⟩ }, "ok")
+  | ["cfg", i, a, f, o, r, j] => ({ d with c := ⟨i == "1", a == "1", f == "1", o == "1", r == "1", j == "1"⟩ }, "ok")
+  | ["rejected"] => ({ d with s := step d.c fOps d.s .rejected }, "ok")
   | ["new", dt, kinds] =>
       match parseHex dt, parseKinds kinds with
       | some dt, some ks => ({ d with s := mkInit dt ks }, "ok")
@@ -258,4 +259,4 @@ partial def loop (h : IO.FS.Stream) (d : DS) : IO Unit := do
   loop h d'
 
 def main : IO Unit := do
-  loop (← IO.getStdin) { c := ⟨true, true, true, true, true⟩, s := mkInit 1.0 [] }
+  loop (← IO.getStdin) { c := ⟨true, true, true, true, true, true⟩, s := mkInit 1.0 [] }
